@@ -1610,7 +1610,7 @@ def _plan(tier):
         add("ded", dict(N=4, G=1, times="weak"), "two1", per=1500, ld_only=True)
         add("ded", dict(N=4, G=2, flags="allsamples"), "two1", per=100, ld_only=True)
         add("ded", dict(N=3, G=2), "ld3", per=4, ld_only=True)
-        add("ded", dict(N=3, G=3, flags="allsamples"), "ld3", per=1, ld_only=True)
+        add("ded", dict(N=4, G=2, flags=_flags_first3), "ld3x", per=8, ld_only=True)
         add("dist", dict(N=4, G=1, times="weak"), per=None, nsh=8)
         add("dist", dict(N=5, G=1), per=None, nsh=2)
         add("dist", dict(N=5, G=2, flags=_flags_first3), per=None, nsh=8)
